@@ -62,7 +62,7 @@ def cxEnv (now : Int) (state : Nat) (u1 : Bool) : Env :=
   { now := now, state := state, hard := true, lhsc := now, volatile := false, reachable := true, inDowntime := false,
     acked := false, flapping := false, ckProblemPending := false, periodOpen := true, globalEnabled := true,
     ckEnabled := true, paused := false, haSkip := false, likelySoon := false, problemApplies := state != 0,
-    recoveryApplies := state == 0, force := false, users := [cxUser 0 true, cxUser 1 u1] }
+    recoveryApplies := state == 0, force := false, authUpdated := true, users := [cxUser 0 true, cxUser 1 u1] }
 def cxOps : List Op :=
   [.send .problem (cxEnv 100 2 true), .send .recovery (cxEnv 200 0 true), .send .problem (cxEnv 300 2 false),
    .send .ack (cxEnv 310 2 true)]
@@ -71,8 +71,8 @@ def cxOps : List Op :=
 example :
     specTrace cxCfg (traceOf cxCfg init cxOps) = none ∧
     (traceOf cxCfg init cxOps).map (fun o => o.events) =
-      [[⟨.problem, false, true, [0, 1]⟩], [⟨.recovery, false, false, []⟩], [⟨.problem, false, true, [0]⟩],
-       [⟨.ack, false, true, [0]⟩]] := by
+      [[⟨.problem, false, true, false, [0, 1]⟩], [⟨.recovery, false, false, false, []⟩], [⟨.problem, false, true, false, [0]⟩],
+       [⟨.ack, false, true, false, [0]⟩]] := by
   decide
 
 /-- A Recovery withheld by the closed period is released by the timer to exactly the users of its incident
@@ -84,7 +84,7 @@ example :
                           .tick { cxEnv 300 0 true with lhsc := 200 }]
     specTrace cfg (traceOf cfg init ops) = none ∧
     (traceOf cfg init ops).map (fun o => o.events) =
-      [[⟨.problem, false, true, [0, 1]⟩], [⟨.recovery, false, false, []⟩], [⟨.recovery, false, true, [0, 1]⟩]] := by
+      [[⟨.problem, false, true, false, [0, 1]⟩], [⟨.recovery, false, false, false, []⟩], [⟨.recovery, false, true, false, [0, 1]⟩]] := by
   decide
 
 /-- **no_duplicate_problem** (second sentence, second half).  Unless the object is volatile, no user is
@@ -98,14 +98,17 @@ theorem no_duplicate_problem (c : Cfg) (ops : List Op) :
     (fun u st h => by simp at h) (fun _ _ => trivial)
 
 /-- **reminder_only_in_hard_unsuppressed_problem** (third sentence, first part).  From any state whatsoever:
-    an operation produces a reminder only if it is a timer run, the reminder is a Problem, and the
-    checkable is in a hard non-OK state, reachable, not in a downtime, not acknowledged and not flapping. -/
+    an operation produces a reminder only if it is a timer run, the reminder is a Problem, the checkable is
+    in a hard non-OK state, reachable, not in a downtime, not acknowledged and not flapping, and the initial
+    Problem is not still held back — neither on the checkable (pending after a suppression) nor, after the
+    operation, on the notification object (pending after a closed period). -/
 theorem reminder_only_in_hard_unsuppressed_problem (c : Cfg) (s : St) (op : Op) :
     ∀ ev ∈ (applyOp c s op).2.events, ev.reminder = true →
       (applyOp c s op).2.kind = .tick ∧ ev.ty = .problem ∧
       (applyOp c s op).2.env.hard = true ∧ (applyOp c s op).2.env.state ≠ 0 ∧
       (applyOp c s op).2.env.reachable = true ∧ (applyOp c s op).2.env.inDowntime = false ∧
-      (applyOp c s op).2.env.acked = false ∧ (applyOp c s op).2.env.flapping = false := by
+      (applyOp c s op).2.env.acked = false ∧ (applyOp c s op).2.env.flapping = false ∧
+      (applyOp c s op).2.env.ckProblemPending = false ∧ (applyOp c s op).2.heldAfter = false := by
   intro ev hm hr
   have h := (reminder_op c {} s op (fun t1 l hl => by simp at hl)).1
   unfold reminderObs at h
@@ -118,7 +121,22 @@ theorem reminder_only_in_hard_unsuppressed_problem (c : Cfg) (s : St) (op : Op) 
     · simp [hk.1, hk.2, hc] at hg
     · simp only [remCondOk, Bool.and_eq_true, Bool.not_eq_true', beq_eq_false_iff_ne] at hc
       obtain ⟨⟨⟨⟨⟨a1, a2⟩, a3⟩, a4⟩, a5⟩, a6⟩ := hc
-      exact ⟨hk.1, hk.2, a1, a2, a3, a4, a5, a6⟩
+      have hc' : remCondOk (applyOp c s op).2.env = true := by
+        simp only [remCondOk, Bool.and_eq_true, Bool.not_eq_true', beq_eq_false_iff_ne]
+        exact ⟨⟨⟨⟨⟨a1, a2⟩, a3⟩, a4⟩, a5⟩, a6⟩
+      have a7 : (applyOp c s op).2.env.ckProblemPending = false := by
+        cases hp : (applyOp c s op).2.env.ckProblemPending
+        · rfl
+        · simp [hk.1, hk.2, hc', hp] at hg
+      have a8 : (applyOp c s op).2.heldAfter = false := by
+        have hh := held_op c s op
+        simp only [heldObs] at hh
+        cases hq : (applyOp c s op).2.heldAfter
+        · rfl
+        · have : (applyOp c s op).2.events.any (fun ev => ev.reminder) = true := by
+            rw [List.any_eq_true]; exact ⟨ev, hm, hr⟩
+          simp [hq, this] at hh
+      exact ⟨hk.1, hk.2, a1, a2, a3, a4, a5, a6, a7, a8⟩
 
 /-- **reminder_spacing** (third sentence, second part).  In every trace of the model, within a stretch
     without a hard state change and with a clock that does not run backwards: a reminder comes at least
@@ -141,7 +159,7 @@ theorem reminder_spacing (c : Cfg) (ops : List Op) :
 theorem model_trace_meets_spec (c : Cfg) (ops : List Op) :
     specTrace c (traceOf c init ops) = none := by
   unfold specTrace
-  rw [delivery_only_if, recovery_ack_recipients, no_duplicate_problem, reminder_spacing]
+  rw [delivery_only_if, recovery_ack_recipients, no_duplicate_problem, reminder_spacing, heldTrace_ok]
 
 /-! ## Non-vacuity -/
 
@@ -153,33 +171,54 @@ def exEnv (now lhsc : Int) (state : Nat) : Env := { cxEnv now state true with lh
 example : (traceOf exCfg init
       [.send .problem (exEnv 100 100 2), .tick (exEnv 111 100 2), .tick (exEnv 170 100 2), .tick (exEnv 171 100 2),
        .send .recovery (exEnv 200 200 0)]).map (fun o => o.events) =
-    [[], [⟨.problem, true, true, [0, 1]⟩], [], [⟨.problem, true, true, [0, 1]⟩], [⟨.recovery, false, true, [0, 1]⟩]] := by
+    [[], [⟨.problem, true, true, false, [0, 1]⟩], [], [⟨.problem, true, true, false, [0, 1]⟩], [⟨.recovery, false, true, false, [0, 1]⟩]] := by
+  decide
+
+/-- Cold start: while the object authority is not yet known, requests are stashed (also behind one another once it is
+    known); the next timer run replays them in arrival order, each with its own force flag — the forced Custom
+    goes out although the period is closed by then, the unforced Acknowledgement is held back by it. -/
+example :
+    let cold (e : Env) : Env := { e with authUpdated := false }
+    let ops : List Op := [.send .problem (cold (exEnv 120 100 2)), .send .custom { cold (exEnv 121 100 2) with force := true },
+                          .send .ack (exEnv 122 100 2), .tick { exEnv 130 100 2 with periodOpen := false }]
+    specTrace exCfg (traceOf exCfg init ops) = none ∧
+    (traceOf exCfg init ops).map (fun o => o.events) = [[], [], [], [⟨.custom, false, true, true, [0, 1]⟩]] := by
   decide
 
 /-- The specification rejects a delivery while the notification period is closed … -/
-example : specTrace exCfg [⟨.send, { exEnv 120 100 2 with periodOpen := false }, [⟨.problem, false, true, [0]⟩]⟩] =
+example : specTrace exCfg [⟨.send, { exEnv 120 100 2 with periodOpen := false }, [⟨.problem, false, true, false, [0]⟩], false⟩] =
     some .notifPeriod := by decide
 
 /-- … a delivery to a disabled user, even when forced … -/
 example : specTrace exCfg [⟨.send, { exEnv 120 100 2 with force := true, users := [cxUser 0 false] },
-    [⟨.problem, false, true, [0]⟩]⟩] = some .userFilters := by decide
+    [⟨.problem, false, true, true, [0]⟩], false⟩] = some .userFilters := by decide
+
+/-- … a delivery that claims to be forced although force_next_notification was not set … -/
+example : specTrace exCfg [⟨.send, { exEnv 120 100 2 with periodOpen := false }, [⟨.problem, false, true, true, [0]⟩], false⟩] =
+    some .forceClaim := by decide
 
 /-- … a Recovery to a subscriber who was not sent the Problem … -/
-example : specTrace exCfg [⟨.send, exEnv 120 100 2, [⟨.problem, false, true, [0]⟩]⟩,
-    ⟨.send, exEnv 200 200 0, [⟨.recovery, false, true, [0, 1]⟩]⟩] = some .recoveryAckRecipients := by decide
+example : specTrace exCfg [⟨.send, exEnv 120 100 2, [⟨.problem, false, true, false, [0]⟩], false⟩,
+    ⟨.send, exEnv 200 200 0, [⟨.recovery, false, true, false, [0, 1]⟩], false⟩] = some .recoveryAckRecipients := by decide
 
 /-- … a second non-reminder Problem for the same state … -/
-example : specTrace exCfg [⟨.send, exEnv 120 100 2, [⟨.problem, false, true, [0]⟩]⟩,
-    ⟨.send, exEnv 130 100 2, [⟨.problem, false, true, [0]⟩]⟩] = some .duplicateProblem := by decide
+example : specTrace exCfg [⟨.send, exEnv 120 100 2, [⟨.problem, false, true, false, [0]⟩], false⟩,
+    ⟨.send, exEnv 130 100 2, [⟨.problem, false, true, false, [0]⟩], false⟩] = some .duplicateProblem := by decide
 
 /-- … a reminder while acknowledged, a reminder 59 s after the Problem … -/
-example : specTrace exCfg [⟨.tick, { exEnv 120 100 2 with acked := true }, [⟨.problem, true, true, [0]⟩]⟩] =
+example : specTrace exCfg [⟨.tick, { exEnv 120 100 2 with acked := true }, [⟨.problem, true, true, false, [0]⟩], false⟩] =
     some .reminderCond := by decide
-example : specTrace exCfg [⟨.send, exEnv 120 100 2, [⟨.problem, false, true, [0]⟩]⟩,
-    ⟨.tick, exEnv 179 100 2, [⟨.problem, true, true, [0]⟩]⟩] = some .reminderSpacing := by decide
+example : specTrace exCfg [⟨.send, exEnv 120 100 2, [⟨.problem, false, true, false, [0]⟩], false⟩,
+    ⟨.tick, exEnv 179 100 2, [⟨.problem, true, true, false, [0]⟩], false⟩] = some .reminderSpacing := by decide
+
+/-- … a reminder while the checkable or the notification object still holds the initial Problem back … -/
+example : specTrace exCfg [⟨.tick, { exEnv 120 100 2 with ckProblemPending := true }, [⟨.problem, true, true, false, [0]⟩], false⟩] =
+    some .reminderBeforeHeld := by decide
+example : specTrace exCfg [⟨.tick, exEnv 120 100 2, [⟨.problem, true, true, false, [0]⟩], true⟩] =
+    some .reminderBeforeHeld := by decide
 
 /-- … and, with interval 0, any reminder after the Problem. -/
-example : specTrace { exCfg with interval := 0 } [⟨.send, exEnv 120 100 2, [⟨.problem, false, true, [0]⟩]⟩,
-    ⟨.tick, exEnv 500 100 2, [⟨.problem, true, true, [0]⟩]⟩] = some .reminderInterval0 := by decide
+example : specTrace { exCfg with interval := 0 } [⟨.send, exEnv 120 100 2, [⟨.problem, false, true, false, [0]⟩], false⟩,
+    ⟨.tick, exEnv 500 100 2, [⟨.problem, true, true, false, [0]⟩], false⟩] = some .reminderInterval0 := by decide
 
 end Icinga.C03
